@@ -66,6 +66,7 @@ type HarnessResult struct {
 	WallS        float64        `json:"wall_s"`
 	Queries      int64          `json:"queries"`
 	PanicChecks  int64          `json:"panic_site_checks"`
+	Fallback     int64          `json:"decided_by_second_solver"`
 	SolverS      float64        `json:"solver_s"`
 }
 
@@ -359,6 +360,7 @@ func (e *Engine) runOne(fn *ssa.Function, pkgPath string) HarnessResult {
 	hr.WallS = time.Since(t0).Seconds()
 	hr.Queries = statQueries - q0
 	hr.PanicChecks = e.panicChecks
+	hr.Fallback = statFallback
 	hr.SolverS = float64(statSolverNS-s0) / 1e9
 	return hr
 }
